@@ -279,12 +279,22 @@ func (x *txnCtx) rangeOp(op *Op) {
 			w.fail(violation("cursor", "Range callback for %d has the cursor at %d", idx, x.txn.Index()))
 			return
 		}
-		if op.Limit > 0 && n >= op.Limit {
+		if (op.Limit > 0 && n >= op.Limit) || (!x.exact && n >= 8) {
 			return
 		}
 		n++
-		if _, reserved := w.model.Reserved[idx]; reserved {
-			return // own in-flight insert: not asserted either way
+		if by, reserved := w.model.Reserved[idx]; reserved {
+			// own in-flight insert: not asserted either way; someone else's: a phantom
+			if by != x.thread && w.conc != nil && w.conc.or.phantom && !w.avoid["phantom-reserved"] {
+				w.noteTrigger("phantom-reserved")
+				w.fail(violation("phantom-insert/range", "Range visited offset %d which is only reserved by the uncommitted insert of thread %d", idx, by))
+			}
+			return
+		}
+		if !x.exact {
+			if _, live := w.model.Rows[idx]; !live {
+				return // deleted by a concurrent commit after the selection was taken
+			}
 		}
 		x.checkRowTxn(idx, op.Yield)
 		x.writesTxn(idx, op)
@@ -326,6 +336,17 @@ func (x *txnCtx) checkRowTxn(off uint32, yield bool) {
 // writesTxn issues writes inside a Range callback (no Row available: transaction accessors).
 func (x *txnCtx) writesTxn(off uint32, op *Op) {
 	w := x.w
+	if !x.exact && len(op.Writes) > 0 {
+		// concurrent worlds: only the stable rows are written by everybody (thread-private
+		// rows may be deleted by their owner at any time; writing to a dead row is out of contract)
+		stable := false
+		for _, o := range w.conc.stable {
+			stable = stable || o == off
+		}
+		if !stable {
+			return
+		}
+	}
 	for i := range op.Writes {
 		wr := &op.Writes[i]
 		switch {
